@@ -74,7 +74,7 @@ DtsAfter(e, X) ==       \* X: the metadata the model expects after the verb (nam
 ExportAgree(logged, want, backend) ==
     Len(logged) = Len(want) /\ \A i \in DOMAIN want :
         \/ want[i] = "?" \/ logged[i] = want[i] \/ logged[i] = "Null"
-        \/ (backend # "polars" /\ {logged[i], want[i]} \subseteq {"Int", "Float"})
+        \/ (backend # "polars" /\ {logged[i], want[i]} \subseteq {"Int", "Float", "Decimal"})
 DtsAgree(logged, want) == Len(logged) = Len(want) /\ \A i \in DOMAIN want : want[i] = "?" \/ logged[i] = "?" \/ logged[i] = want[i]
 
 Modelled == {"select", "drop", "rename", "mutate", "filter", "arrange", "slice_head", "group_by", "ungroup", "summarize",
@@ -88,14 +88,16 @@ Clause(e, X) ==
     ELSE IF ~e.marker /\ e.sql[1] # X.lim THEN "sql-limit"
     ELSE IF ~e.marker /\ e.sql[3] # X.filt THEN "sql-filtered"
     ELSE IF ~e.marker /\ (e.sql[2] > 0) # (X.ngrp > 0) THEN "sql-grouped"
-    ELSE IF e.names = X.names /\ ~DtsAgree(e.dts, DtsAfter(e, X)) THEN "dtype"
+    \* collect() = export + re-import: judged like an export (an all-null / empty column comes back null-typed)
+    ELSE IF e.names = X.names /\ e.verb = "collect" /\ ~ExportAgree(e.dts, DtsAfter(e, X), Tab(e.in).backend) THEN "dtype"
+    ELSE IF e.names = X.names /\ e.verb # "collect" /\ ~DtsAgree(e.dts, DtsAfter(e, X)) THEN "dtype"
     ELSE ""
 
 Step ==
     /\ verdict = "ok" /\ l >= 1 /\ l <= Len(Traces[tid])
     /\ LET e == Ev IN
        IF e.verb = "source"
-       THEN /\ tabs' = Put(e.out, [dts |-> e.dts] @@ [CmSource(e.names) EXCEPT !.part = e.part, !.lim = e.sql[1], !.ngrp = e.sql[2], !.filt = e.sql[3]])
+       THEN /\ tabs' = Put(e.out, [dts |-> e.dts, backend |-> e.backend] @@ [CmSource(e.names) EXCEPT !.part = e.part, !.lim = e.sql[1], !.ngrp = e.sql[2], !.filt = e.sql[3]])
             /\ verdict' = "ok"
        ELSE IF ~Known(e.in) THEN tabs' = tabs /\ verdict' = "unknown-input"
        ELSE IF e.verb = "export_cols"
@@ -109,7 +111,7 @@ Step ==
                 c == Clause(e, X)
             IN /\ verdict' = IF c = "" THEN "ok" ELSE c
                \* continue from the LOGGED state so that one divergence does not hide what follows
-               /\ tabs' = Put(e.out, [dts |-> e.dts] @@ [X EXCEPT !.names = e.names, !.part = e.part])
+               /\ tabs' = Put(e.out, [dts |-> e.dts, backend |-> e.backend] @@ [X EXCEPT !.names = e.names, !.part = e.part])
     /\ l' = IF verdict' = "ok" THEN l + 1 ELSE l
     /\ tid' = tid
 
